@@ -30,7 +30,8 @@ ASSUMPTIONS = [
     'taken by the harness when save_checkpoint was called',
     'progress of a live process = one Process.step() of a real process (auto-persisted members and outputs, a member '
     'handed out by reference in save_instance_state, a WorkChain context), which changes its persisted state',
-    'missing checkpoints: KeyError (in-memory) and FileNotFoundError (pickle) are both observed as "missing"',
+    'missing checkpoints: KeyError (in-memory), FileNotFoundError (pickle) and the documented PersistenceError are all '
+    'observed as "missing"',
     'order of get_checkpoints()/get_process_checkpoints() is unspecified: listings are compared sorted, duplicates kept',
 ]
 TRUSTED = ['persister models lean/PlumpyModel/Persister/Model.lean (hand-written; compared with both real persisters after '
@@ -131,6 +132,7 @@ class Runner:
         from harness import persist_procs as pp
         logging.disable(logging.CRITICAL)
         self.case = case
+        self.missing_exc = (LookupError, OSError, getattr(plumpy, 'PersistenceError', LookupError))
         self.loop = asyncio.new_event_loop()
         self.dir = tempfile.mkdtemp(prefix='case-', dir=root)
         self.pers = [('mem', plumpy.InMemoryPersister()), ('pkl', plumpy.PicklePersister(os.path.join(self.dir, 'pickles')))]
@@ -155,11 +157,11 @@ class Runner:
             hits = [n for (q, n), ref in self.refs.items() if q != p and ref == bundle]
         return str(hits[0]) if len(set(hits)) == 1 else ('?' if not hits else 'ambiguous')
 
-    @staticmethod
-    def call(fn):
+    def call(self, fn):
+        # a missing checkpoint: KeyError (in-memory), FileNotFoundError (pickle), or the documented PersistenceError
         try:
             return 'ok', fn()
-        except (KeyError, FileNotFoundError):
+        except self.missing_exc:
             return 'missing', None
         except Exception as e:  # noqa
             return f'err:{type(e).__name__}', None
@@ -355,7 +357,7 @@ def exhaustive_cases(ctx):
     small = {'int': (['i:1', 'i:12'], ['i:1']), 'uuid': ([f'u:{uuid.UUID(int=1)}', f'u:{uuid.UUID(int=2 ** 100 + 7)}'], [f'u:{uuid.UUID(int=1)}']),
              'str': (['s:a', 's:ab'], ['s:pickle'])}
     full_len = 3 if ctx.thorough else 2
-    mut_len = 4 if ctx.thorough else 3
+    mut_len = 4
     for kind, (pids, tags) in small.items():
         al = alphabet(pids, tags)
         for n in range(1, full_len + 1):
@@ -365,8 +367,10 @@ def exhaustive_cases(ctx):
     al = alphabet(pids, tags, mutators_only=True)
     for n in range(full_len + 1, mut_len + 1):
         for ops in itertools.product(al, repeat=n):
+            if n == mut_len and not ctx.thorough and ops[0][0] != 'save':
+                continue        # quick tier: the longest ones only when they start by storing something
             cases.append(dict(label='str', pids=pids, tags=tags, ops=[list(o) for o in ops]))
-    return cases, dict(full_alphabet_len=full_len, mutators_len=mut_len)
+    return cases, dict(full_alphabet_len=full_len, mutators_len=mut_len, longest_start_with_save=not ctx.thorough)
 
 
 WEIGHTS = [('save', 30), ('load', 14), ('list', 4), ('listp', 5), ('del', 16), ('delp', 7), ('progress', 24)]
@@ -573,8 +577,9 @@ def _run(ctx, root):
     return dict(
         evaluations=len(cases), distinct_nontrivial=len(distinct),
         rule=f"all histories of length <= {ex_info['full_alphabet_len']} over the full operation alphabet (2 pids x (None + 1 tag)) for "
-             f"each id kind, all histories of length <= {ex_info['mutators_len']} over the state-changing operations (every "
-             'operation line carries the full observable state), then random histories of length <= '
+             f"each id kind, all histories of length <= {ex_info['mutators_len']} over the state-changing operations"
+             + (' (those of the maximal length only if they start with a save)' if ex_info['longest_start_with_save'] else '')
+             + ' (every operation line carries the full observable state), then random histories of length <= '
              f'{max_len} over 3 pids x (None + 2 tags) x 3 id kinds; non-trivial = at least one successful load after an '
              'overwrite or after progress of the saved process; distinct = distinct observation streams',
         samples=samples, traces_validated=len(cases) if model is not None else 0,
